@@ -115,6 +115,10 @@ func main() {
 	r.Require("policies_invalid", 5)
 	r.Require("invalid_policy_ecs_queries", 50)
 	r.Require("badvers_with_permitted_ecs", 3)
+	r.Require("badcookie_with_client_ecs", 3)
+	r.Require("reply_class_servfail-after-panic", 10)
+	r.Require("denial_creation_probes_background-refresh", 3)
+	r.Require("denial_creation_probes_alias-chase", 10)
 	r.Require("scoped_serves_inside_scope_fam1", 20)
 	r.Require("scoped_serves_inside_scope_fam2", 20)
 	r.Require("scoped_refusals_outside_scope", 20)
